@@ -23,7 +23,8 @@ DEFAULTS = {
     "uint32": ["0", "4294967295"],
     "uint64": ["0", "0x7f"],
     "float64": ["0.5", "0.0", 1.5],
-    "string": ["", "abc", "null"],
+    # (a string default is taken verbatim: blanks at the edges, quotes and backslashes are part of the value)
+    "string": ["", "abc", "null", " pad ", "it's", 'say "hi"', "back\\slash", "\u00e9"],
     "bytes": ["null"],
     "uuid": [],
     "records": ["null"],
